@@ -66,6 +66,9 @@ def main(tier):
         for n, p in enumerate(progs):
             jobs.append({'id': '%s/%d/text' % (name, n), 'prog': p, 'route': 'text'})
             jobs.append({'id': '%s/%d/builder' % (name, n), 'prog': p, 'route': 'builder'})
+            if n % 3 == 0:
+                for q in passes.edge_variants(p, rng):
+                    jobs.append({'id': '%s/%d/edge/text' % (name, n), 'prog': q, 'route': 'text'})
     for f in rep.findings:
         if 'witness' in f and 'text' in f['witness']:
             jobs.append({'id': 'witness/' + f['id'], 'prog': dict(passes.EMPTY_PROG), 'route': 'text', 'text': f['witness']['text']})
